@@ -14,6 +14,7 @@
     once (`Tab`), which is what the driver runs; `Proofs/C06Pipe.lean` proves them equal (`run_eq`).
 -/
 import Aegean.Num
+import Aegean.Py
 
 namespace Aegean.Model.C06
 
@@ -171,6 +172,13 @@ def d2Fn (mode : Mode) (G : Geom) (S : Stripe) (img B : Img α) : Img α := fun 
   if mode = Mode.all || (decide (G.r0 S ≤ r) && decide (r < G.rEnd S)) then
     osub (cut G S img r c) (B (G.drmin S + r) c)
   else cut G S img r c
+
+/-- the rows of the loaded block from which the background is subtracted, `[lo, hi)`: the stripe's own rows (pinned) or
+    the whole block (repaired); `Properties.C06.gen_subtract_rows` ties the regenerated slice bounds to `subRows Mode.all` -/
+def subRows (mode : Mode) (G : Geom) (S : Stripe) : Nat × Nat :=
+  match mode with
+  | Mode.own => (G.r0 S, G.rEnd S)
+  | Mode.all => (0, G.dn S)
 
 def bkgFn (G : Geom) (stripes : List Stripe) (img : Img α) : Img α :=
   passFn G stripes Prod.fst (fun S => cut G S img)
